@@ -169,6 +169,8 @@ void op_sign(const Case& c, TaskCtx& t, Outcome& o) {
     sig.assign(out, out + len);
   o.digest = digest_of(rc, rc == 0 ? len : 0, sig.data(), sig.size());
   o.summary = "rc=" + std::to_string(rc) + " len=" + (rc == 0 ? std::to_string(len) : "-") + " cap=" + std::to_string(cap);
+  if (G.solo_pass)
+    return; // the solo execution only supplies the result; oracle clauses are evaluated in the history run
   if (t.stats) {
     t.stats->hit("op.sign");
     t.stats->tuple(std::string(p.name) + "|" + family_tag(c) + "|sign|surf" + std::to_string(surf) + "|" +
@@ -599,6 +601,8 @@ void op_verify(const Case& c, TaskCtx& t, Outcome& o) {
   }
   o.digest = digest_of(rc, 0, nullptr, 0);
   o.summary = "rc=" + std::to_string(rc) + (d.intact ? " intact" : " " + d.fault_desc);
+  if (G.solo_pass)
+    return; // the solo execution only supplies the result; oracle clauses are evaluated in the history run
   if (t.stats) {
     t.stats->hit("op.verify");
     t.stats->hit(d.intact ? "verify.intact" : "verify.altered");
@@ -712,6 +716,8 @@ void op_signbad(const Case& c, TaskCtx& t, Outcome& o) {
     rc = libcall(t, [&] { return picnic_sign(st.data(), msg.empty() ? &nonnull_empty2 : msg.data(), msg.size(), cb.p(), &len); });
   o.digest = digest_of(rc, 0, nullptr, 0);
   o.summary = "rc=" + std::to_string(rc) + " flips=" + c.s("cf") + " expect=" + (expect_ok ? "sign" : "refuse");
+  if (G.solo_pass)
+    return; // the solo execution only supplies the result; oracle clauses are evaluated in the history run
   if (t.stats) {
     t.stats->hit("op.signbad");
     t.stats->hit(expect_ok ? "c12.still_consistent" : "c12.inconsistent");
